@@ -16,26 +16,48 @@
 //	direct    random histories without a worker: Append and SendDirect calls
 //	defaults  a sender created WITHOUT settings, driven so that each of the four
 //	          built-in settings decides something observable
+//	reconf    the waiting time in force changes while the worker runs (long <-> short,
+//	          named or absent = built-in), each change followed by a batch that only
+//	          the worker's idle time-out can flush; the harness's reference clock
+//	          (Tick events) tells TLC how long that took
+//	api       senders created through the PUBLIC GetInstance (one child process per
+//	          history: the instance is process-wide) with every kind of context
+//	          option, stopped through every function that then stops it, settings
+//	          delivered by ApplyConfig or through a ConfigObserver
 //	free      queue mode, nothing held: a producer, a SendDirect caller and the
 //	          worker run concurrently (second trace; timing dependent)
 //
+// Records that the pack layer cannot encode (built without the constructor: no
+// tag map; a nil pointer) are mixed into the random histories.
+//
 // The harness only records.  Record times are virtual (the sender compares
-// record times with each other, never with the clock).
+// record times with each other, never with the clock); the one place where real
+// time is part of the property -- the worker's timed wait on an idle queue --
+// is measured in periods of a reference clock of the same process (Tick).
 package c16
 
 import (
+	"bufio"
 	"bytes"
 	"compress/gzip"
+	"context"
+	"encoding/json"
 	"errors"
 	"fmt"
 	"io"
 	"math/rand"
+	"os"
+	"os/exec"
+	"path/filepath"
 	"runtime"
+	"sort"
 	"strconv"
+	"strings"
 	"sync"
 	"sync/atomic"
 	"time"
 
+	"github.com/whatap/golib/config"
 	gio "github.com/whatap/golib/io"
 	"github.com/whatap/golib/lang/pack"
 	"github.com/whatap/golib/logsink/zip"
@@ -51,6 +73,14 @@ func init() { core.Register("c16", Run) }
 // reaching it is reported as a harness problem (exit 2), never as a violation.
 const waitMax = 120 * time.Second
 
+// The reference clock (Trace_ZipSender.cfg: MinPeriod, IdleSlack): after releasing the worker into its timed
+// wait the harness sleeps full periods of max(waiting time in force, minPeriod) and logs a Tick after each
+// one that the worker has not answered; it never logs more than idleSlack+1 of them.
+const (
+	minPeriod = 20 // ms
+	idleSlack = 60
+)
+
 // ---------------------------------------------------------------- records
 
 type rec struct {
@@ -59,7 +89,15 @@ type rec struct {
 	clen int
 	p    *pack.LogSinkPack
 	enc  []byte
+	ok   bool // the pack layer can encode it
 }
+
+// kinds of record
+const (
+	kGood    = 0
+	kNoTags  = 1 // built as a literal, without the constructor: no tag map
+	kNilPack = 2 // a nil pointer
+)
 
 func content(id, n int) string {
 	b := make([]byte, n)
@@ -86,13 +124,32 @@ func build(id int, tm int64, clen int, tags bool) *pack.LogSinkPack {
 	return p
 }
 
-// newRec: the record handed to the sender and, from an identical twin, the bytes the pack layer writes for it
-func newRec(id int, tm int64, clen int) *rec {
-	tags := id%5 == 0
-	twin := build(id, tm, clen, tags)
-	enc := pack.WritePack(gio.NewDataOutputX(), twin).ToByteArray()
-	return &rec{id: id, time: tm, clen: clen, p: build(id, tm, clen, tags), enc: enc}
+func buildKind(id int, tm int64, clen int, kind int) *pack.LogSinkPack {
+	switch kind {
+	case kNoTags:
+		p := &pack.LogSinkPack{Category: "app", Line: int64(id), Content: content(id, clen)}
+		p.Pcode = int64(1000 + id%3)
+		p.Time = tm
+		return p
+	case kNilPack:
+		return nil
+	}
+	return build(id, tm, clen, id%5 == 0)
 }
+
+// newRecKind: the record handed to the sender and, from an identical twin, the bytes the pack layer writes for
+// it -- or the fact that the pack layer cannot write it (ok = false, no bytes)
+func newRecKind(id int, tm int64, clen int, kind int) *rec {
+	twin := buildKind(id, tm, clen, kind)
+	var enc []byte
+	msg := core.Guard(func() { enc = pack.WritePack(gio.NewDataOutputX(), twin).ToByteArray() })
+	if msg != "" {
+		return &rec{id: id, time: tm, clen: 0, p: buildKind(id, tm, clen, kind), enc: []byte{}, ok: false}
+	}
+	return &rec{id: id, time: tm, clen: clen, p: buildKind(id, tm, clen, kind), enc: enc, ok: true}
+}
+
+func newRec(id int, tm int64, clen int) *rec { return newRecKind(id, tm, clen, kGood) }
 
 // a record whose encoding has exactly n bytes (n >= the empty record's size)
 func recOfSize(id int, tm int64, n int) *rec {
@@ -115,7 +172,7 @@ func recOfSize(id int, tm int64, n int) *rec {
 }
 
 func (r *rec) ev() core.Ev {
-	return core.Ev{"id": r.id, "time": r.time, "clen": r.clen, "bytes": core.Cp(r.enc)}
+	return core.Ev{"id": r.id, "time": r.time, "clen": r.clen, "bytes": core.Cp(r.enc), "ok": r.ok}
 }
 
 // ---------------------------------------------------------------- one history
@@ -155,6 +212,13 @@ type hist struct {
 	failErr  bool // the client reports an error for some packs
 	nextID   int
 	err      error
+
+	ctxk    string            // what was passed as context at creation: "none" | "ctx" | "both"
+	via     string            // the way this history stops the sender
+	stops   map[string]func() // via -> the function that makes the stop request
+	deliver func(m map[string]int) // how a configuration reaches the sender (nil: ApplyConfig is called)
+	nilUsed bool              // the one nil-pointer record of the history has been made
+	overrun bool              // a timed wait of the worker outlasted the reference clock's slack
 }
 
 func gid() int64 {
@@ -214,7 +278,7 @@ func (h *hist) VerifStep(point string, p *pack.LogSinkPack, st zip.VerifState) {
 	}
 	quiet := h.inflight.Load() == 0 && (h.gated.Load() || h.mode == "direct")
 	e := core.Ev{"ev": name, "st": stEv(st, quiet)}
-	if p != nil {
+	if p != nil || point == "take" || point == "append" {
 		h.mu.Lock()
 		r := h.recs[p]
 		h.mu.Unlock()
@@ -350,12 +414,68 @@ func (h *hist) waitArrive() string {
 	}
 }
 
+// waitArriveTicking: the worker was released into its timed wait with waiting time w > 0 in force.  While it
+// has not reported, every further FULL period of max(w, minPeriod) ms is logged as a Tick (the timer of a period
+// is started after the previous Tick was logged, so k Ticks mean at least k periods).  Load delays the harness's
+// timers and the worker's alike; when the whole process is starved the reference clock stands still too.
+func (h *hist) waitArriveTicking(w int64) string {
+	period := w
+	if period < minPeriod {
+		period = minPeriod
+	}
+	limit := time.NewTimer(waitMax)
+	defer limit.Stop()
+	for n := 0; ; {
+		var tick <-chan time.Time
+		var tm *time.Timer
+		if n <= idleSlack {
+			tm = time.NewTimer(time.Duration(period) * time.Millisecond)
+			tick = tm.C
+		}
+		select {
+		case p := <-h.arrived:
+			if tm != nil {
+				tm.Stop()
+			}
+			h.parkedAt = p
+			return p
+		case <-h.done:
+			if tm != nil {
+				tm.Stop()
+			}
+			h.parkedAt = ""
+			return "exit"
+		case <-tick:
+			n++
+			if n > idleSlack {
+				h.overrun = true
+			}
+			h.t.Emit(core.Ev{"ev": "Tick", "p": period})
+		case <-limit.C:
+			h.fail(fmt.Errorf("worker did not reach its next step within %v", waitMax))
+			h.parkedAt = ""
+			return "hang"
+		}
+	}
+}
+
+// release lets the held worker go on; from "poll" it enters its timed wait and the reference clock runs
+func (h *hist) release() (ticking bool, w int64) {
+	if h.parkedAt == "poll" {
+		w = h.s.SettingsForVerif().MaxWait // the worker is held: nobody writes the settings now
+	}
+	h.resume <- struct{}{}
+	return w > 0, w
+}
+
 // step lets the held worker run to its next reported step
 func (h *hist) step() string {
 	if h.parkedAt == "" {
 		return ""
 	}
-	h.resume <- struct{}{}
+	if ticking, w := h.release(); ticking {
+		return h.waitArriveTicking(w)
+	}
 	return h.waitArrive()
 }
 
@@ -370,6 +490,21 @@ func (h *hist) mk(tm int64, clen int) *rec {
 	r := newRec(h.nextID, tm, clen)
 	h.reg(r)
 	return r
+}
+
+// mkAny: mostly ordinary records; now and then one the pack layer cannot encode (at most one nil pointer per
+// history: the hooks identify a record by its pointer)
+func (h *hist) mkAny(rng *rand.Rand, tm int64, clen int) *rec {
+	kind := kGood
+	if rng.Intn(8) == 0 {
+		kind = kNoTags
+		if !h.nilUsed && rng.Intn(3) == 0 {
+			kind = kNilPack
+			h.nilUsed = true
+		}
+	}
+	h.nextID++
+	return h.reg(newRecKind(h.nextID, tm, clen, kind))
 }
 
 func (h *hist) reg(r *rec) *rec {
@@ -395,6 +530,13 @@ func (h *hist) create(mode string, given bool, s settings, gated bool) {
 			h.s = zip.NewZipSendProxyThreadForVerif(h, mode == "queue")
 		}
 	})
+	h.ctxk, h.via = "none", "own"
+	h.stops = map[string]func(){"own": func() { h.s.StopForVerif() }}
+	h.created(mode, given, s)
+}
+
+// created: the sender exists (h.s); hook the queue's refusal callback, log New, wait for the held worker
+func (h *hist) created(mode string, given bool, s settings) {
 	if h.s == nil {
 		h.fail(errors.New("sender not created"))
 		return
@@ -415,7 +557,7 @@ func (h *hist) create(mode string, given bool, s settings, gated bool) {
 	}
 	// the worker reports nothing (and so reads no setting) before New is logged: no race in reading them here
 	obs := stEv(h.s.SettingsForVerif(), false)["obs"]
-	h.t.Emit(core.Ev{"ev": "New", "mode": mode, "given": given, "s": s.ev(), "obs": obs})
+	h.t.Emit(core.Ev{"ev": "New", "mode": mode, "given": given, "s": s.ev(), "ctx": h.ctxk, "obs": obs})
 	close(h.newLogged)
 	if h.gated.Load() {
 		h.waitArrive()
@@ -430,9 +572,14 @@ func (h *hist) add(r *rec) {
 // addInflight releases the held worker and adds while it runs (only when the queue certainly has room)
 func (h *hist) addInflight(r *rec) string {
 	h.inflight.Store(1)
-	h.resume <- struct{}{}
+	ticking, w := h.release()
 	h.add(r)
-	p := h.waitArrive()
+	var p string
+	if ticking {
+		p = h.waitArriveTicking(w)
+	} else {
+		p = h.waitArrive()
+	}
 	h.inflight.Store(0)
 	return p
 }
@@ -451,13 +598,16 @@ func (h *hist) sendDirect(rs []*rec) {
 		ps = append(ps, r.p)
 	}
 	h.t.Emit(core.Ev{"ev": "DirectBegin", "rs": evs})
-	h.guard("SendDirect", func() { h.s.SendDirect(ps) })
-	h.t.Emit(core.Ev{"ev": "DirectEnd"})
+	if msg := core.Guard(func() { h.s.SendDirect(ps) }); msg != "" {
+		h.t.Emit(core.Ev{"ev": "DirectPanic", "msg": msg}) // the call gave up and told its caller
+	} else {
+		h.t.Emit(core.Ev{"ev": "DirectEnd"})
+	}
 }
 
 func (h *hist) stop() {
-	h.t.Emit(core.Ev{"ev": "StopCall"})
-	h.s.StopForVerif()
+	h.t.Emit(core.Ev{"ev": "StopCall", "via": h.via})
+	h.stops[h.via]()
 	h.t.Emit(core.Ev{"ev": "StopRet"})
 	if h.parkedAt != "" {
 		h.t.Emit(core.Ev{"ev": "Sync"})
@@ -472,7 +622,13 @@ func (h *hist) applyConfig(m map[string]int) {
 	for k, v := range m {
 		g[confKeys[k]] = v
 	}
-	h.guard("ApplyConfig", func() { h.s.ApplyConfig(&mapConfig{m}) })
+	h.guard("ApplyConfig", func() {
+		if h.deliver != nil {
+			h.deliver(m)
+		} else {
+			h.s.ApplyConfig(&mapConfig{m})
+		}
+	})
 	obs := stEv(h.s.SettingsForVerif(), false)["obs"]
 	h.t.Emit(core.Ev{"ev": "ApplyConfig", "g": g, "obs": obs})
 }
@@ -483,19 +639,45 @@ func (h *hist) finish(stopped bool) {
 		return
 	}
 	if h.mode == "queue" {
+		if h.overrun && !stopped && h.parkedAt == "poll" {
+			// the history is already refused (a timed wait outlasted the reference clock); spare the next one:
+			// with a record queued the wait returns at once
+			h.add(h.mk(1, 1))
+		}
 		if !stopped {
 			h.stop()
+		}
+		// a held worker is stepped to the select that has to see the stop request.  One that goes past it ("poll"
+		// again) has already been reported; it is then ended through the sender's own cancel function.
+		missed := false
+		for i := 0; i < 8 && h.parkedAt != "" && !missed; i++ {
+			switch h.step() {
+			case "poll":
+				missed = true
+			case "stop", "exit", "hang", "":
+				i = 8
+			}
+		}
+		if missed {
+			h.s.StopForVerif()
 		}
 		h.gated.Store(false)
 		if h.parkedAt != "" {
 			h.parkedAt = ""
 			h.resume <- struct{}{}
 		}
-		tm := time.NewTimer(waitMax)
+		tm := time.NewTimer(20 * time.Second)
 		select {
 		case <-h.done:
 		case <-tm.C:
-			h.fail(fmt.Errorf("worker did not return within %v of the stop request", waitMax))
+			// not a judgement (the log tells TLC what the worker did after the stop request): only a way to end the history
+			h.s.StopForVerif()
+			tm.Reset(waitMax)
+			select {
+			case <-h.done:
+			case <-tm.C:
+				h.fail(fmt.Errorf("worker did not return within %v of the stop request", waitMax))
+			}
 		}
 		tm.Stop()
 	}
@@ -681,13 +863,23 @@ func gatedHistory(c *core.Ctx, t *core.Trace, cas int) error {
 	if h.err != nil {
 		return h.err
 	}
-	cur := s
+	nrec := gatedOps(h, rng, s, 15+rng.Intn(c.Pick(45, 90)))
+	c.Count(fmt.Sprintf("gated/%d/%d/%d/%d/%d", s.maxBuf, s.maxWait, s.zipMin, s.qCap, nrec), nrec >= 2)
+	if cas < 2 {
+		c.Sample(map[string]interface{}{"gen": "gated", "case": cas, "settings": s.ev(), "records": nrec, "keep_mode": h.keepMode})
+	}
+	return h.err
+}
+
+// gatedOps: a random history on a sender whose worker is held at its first "poll": adds while the worker is held
+// and while it waits, single steps and runs of steps, SendDirect, configuration updates, the stop request (through
+// h.via) anywhere in the second half, re-reading retained packs; ends the history.  cur = the settings in force.
+func gatedOps(h *hist, rng *rand.Rand, cur settings, nops int) (nrec int) {
+	base := len(newRec(1, 1, 0).enc)
 	qlen := 0 // records certainly still queued at most (upper bound kept by the harness for in-flight adds)
 	now := int64(1 + rng.Intn(3))
-	nops := 15 + rng.Intn(c.Pick(45, 90))
-	nrec := 0
 	stopped := false
-	for i := 0; i < nops && h.err == nil && h.parkedAt != ""; i++ {
+	for i := 0; i < nops && h.err == nil && h.parkedAt != "" && !h.overrun; i++ {
 		switch k := rng.Intn(24); {
 		case k >= 20: // let the worker run several steps
 			for j := 0; j < 2+rng.Intn(4) && h.parkedAt != "" && h.err == nil; j++ {
@@ -702,13 +894,13 @@ func gatedHistory(c *core.Ctx, t *core.Trace, cas int) error {
 			} else if now > 3 && rng.Intn(3) == 0 {
 				now -= int64(rng.Intn(3)) // record times need not be monotone
 			}
-			h.add(h.mk(now, pickClen(rng)))
+			h.add(h.mkAny(rng, now, pickClen(rng)))
 			nrec++
 			qlen++
 		case k < 7 && !stopped && h.parkedAt == "poll" && (cur.qCap <= 0 || int64(qlen)+1 < cur.qCap):
 			// add while the worker is inside its timed wait
 			now += int64(rng.Intn(5))
-			h.addInflight(h.mk(now, pickClen(rng)))
+			h.addInflight(h.mkAny(rng, now, pickClen(rng)))
 			nrec++
 			qlen++
 		case k < 16:
@@ -726,7 +918,7 @@ func gatedHistory(c *core.Ctx, t *core.Trace, cas int) error {
 			m := pickConfig(rng, base)
 			if _, ok := m["max_wait_time"]; !ok {
 				// an absent key means the built-in 5 s, and every expiry of the worker's timed wait would really take
-				// that long: in queue mode the key is always named (absent keys: direct mode and cex/4)
+				// that long: here the key is always named (absent keys: reconf, direct mode and cex/4)
 				m["max_wait_time"] = 1 + rng.Intn(12)
 			}
 			h.applyConfig(m)
@@ -743,18 +935,230 @@ func gatedHistory(c *core.Ctx, t *core.Trace, cas int) error {
 		}
 	}
 	h.finish(stopped)
-	c.Count(fmt.Sprintf("gated/%d/%d/%d/%d/%d", s.maxBuf, s.maxWait, s.zipMin, s.qCap, nrec), nrec >= 2)
-	if cas < 2 {
-		c.Sample(map[string]interface{}{"gen": "gated", "case": cas, "settings": s.ev(), "records": nrec, "keep_mode": h.keepMode})
+	return nrec
+}
+
+// ---- the waiting time in force changes while the worker runs
+
+// toPoll steps the held worker until it is held at "poll" again; the caller makes sure that the queue is not
+// empty when a long waiting time is in force (the timed wait then returns at once)
+func (h *hist) drainHeld(qlen int) {
+	for ; qlen > 0 && h.err == nil && h.parkedAt != "" && !h.overrun; qlen-- {
+		h.runToPoll()
 	}
+}
+
+func reconfHistory(c *core.Ctx, t *core.Trace, cas int) error {
+	rng := c.Rng("reconf", cas)
+	h := newHist(c, t, "reconf", cas, false)
+	h.keepMode = rng.Intn(3)
+	base := len(newRec(1, 1, 0).enc)
+	big := int64(1 << 20)
+	short := func() int64 { return int64(3 + rng.Intn(10)) }
+	long := func() int64 { return int64(2000 + rng.Intn(3000)) }
+	zips := []int64{0, int64(base), int64(2*base) + 3, 100, big}
+	var cur settings
+	switch cas % 3 {
+	case 0: // created the way an application does: the built-in 5 s are in force
+		cur = settings{65536, 5000, 100, 1000}
+		h.create("queue", false, settings{}, true)
+	case 1:
+		cur = settings{big, long(), zips[rng.Intn(len(zips))], 0}
+		h.create("queue", true, cur, true)
+	default:
+		cur = settings{big, short(), zips[rng.Intn(len(zips))], 0}
+		h.create("queue", true, cur, true)
+	}
+	if h.err != nil {
+		return h.err
+	}
+	now := int64(5)
+	nph := 3 + rng.Intn(c.Pick(3, 6))
+	nrec, nidle := 0, 0
+	for ph := 0; ph < nph && h.err == nil && h.parkedAt == "poll" && !h.overrun; ph++ {
+		// here the worker is held at "poll" and the queue is empty
+		m := map[string]int{}
+		switch {
+		case ph == nph-1 || cur.maxWait >= 1000 || rng.Intn(3) > 0:
+			cur.maxWait = short()
+			m["max_wait_time"] = int(cur.maxWait)
+		case rng.Intn(3) == 0:
+			cur.maxWait = 5000 // not named: the built-in one
+		default:
+			cur.maxWait = long()
+			m["max_wait_time"] = int(cur.maxWait)
+		}
+		if rng.Intn(2) == 0 {
+			m["max_buffer_size"] = int(big)
+		}
+		if rng.Intn(2) == 0 {
+			m["logsink_zip_min_size"] = int(zips[rng.Intn(len(zips))])
+		}
+		// the update arrives while the worker is at its "poll" step, or in the middle of handling a record
+		n := 1 + rng.Intn(3)
+		now += int64(rng.Intn(3))
+		mid := rng.Intn(3) == 0
+		if mid {
+			h.add(h.mkAny(rng, now, pickClen(rng)))
+			nrec++
+			for j := 0; j < 1+rng.Intn(2); j++ { // "take", "append"
+				h.step()
+			}
+			n--
+		}
+		h.applyConfig(m)
+		if mid {
+			h.runToPoll()
+		}
+		// a batch of records of the same time: neither the size nor the record times make it due
+		for j := 0; j < n; j++ {
+			h.add(h.mkAny(rng, now, pickClen(rng)))
+			nrec++
+		}
+		h.drainHeld(n)
+		if cur.maxWait < 1000 && h.parkedAt == "poll" {
+			h.runToPoll() // nothing queued: only the expiry of the timed wait flushes the batch
+			nidle++
+		}
+		h.peekLast(2)
+	}
+	h.finish(false)
+	c.Count(fmt.Sprintf("reconf/%d/%d/%d", cas%3, nph, nrec), nidle >= 1)
 	return h.err
+}
+
+// ---- every way the public API offers to create and to stop a sender
+
+type ctxKey struct{}
+
+// apiHistory runs in a process of its own: GetInstance creates THE instance of the process.
+func apiHistory(c *core.Ctx, t *core.Trace, cas int) error {
+	rng := c.Rng("api", cas)
+	h := newHist(c, t, "api", cas, false)
+	h.keepMode = rng.Intn(3)
+	h.failErr = rng.Intn(4) == 0
+	h.mode = "queue"
+	h.gated.Store(true)
+	root, rootCancel := context.WithCancel(context.Background())
+	defer rootCancel()
+	opts := []zip.ZipSendProxyThreadOption{zip.WithTcpClient(h), zip.WithUseQueue()}
+	h.stops = map[string]func(){"own": func() { h.s.StopForVerif() }}
+	h.ctxk = "none"
+	switch cas % 5 {
+	case 0: // no context
+	case 1: // a context and its cancel function
+		ctx, cancel := context.WithCancel(root)
+		opts = append(opts, zip.WithContext(ctx, cancel))
+		h.ctxk, h.stops["given"], h.stops["parent"] = "both", func() { cancel() }, func() { rootCancel() }
+	case 2: // a context alone: its owner keeps the cancel function
+		ctx, cancel := context.WithCancel(root)
+		opts = append(opts, zip.WithContext(ctx, nil))
+		h.ctxk, h.stops["parent"] = "ctx", func() { cancel() }
+	case 3: // a context derived twice (far deadline, value), alone: an ancestor is cancelled
+		mid, midCancel := context.WithTimeout(root, time.Hour)
+		defer midCancel()
+		ctx := context.WithValue(mid, ctxKey{}, cas)
+		opts = append(opts, zip.WithContext(ctx, nil))
+		h.ctxk, h.stops["parent"] = "ctx", func() { rootCancel() }
+	case 4: // a context with a far deadline and its cancel function
+		ctx, cancel := context.WithTimeout(root, time.Hour)
+		opts = append(opts, zip.WithContext(ctx, cancel))
+		h.ctxk, h.stops["given"], h.stops["parent"] = "both", func() { cancel() }, func() { rootCancel() }
+	}
+	vias := []string{}
+	for v := range h.stops {
+		vias = append(vias, v)
+	}
+	sort.Strings(vias)
+	sort.SliceStable(vias, func(i, j int) bool { return vias[i] == "parent" && vias[j] != "parent" }) // the context's owner first
+	h.via = vias[(cas/5)%len(vias)]
+	if (cas/5)%2 == 1 { // the configuration reaches the sender through an observer it registered with
+		obs := config.NewConfigObserver()
+		opts = append(opts, zip.WithConfigObserver(obs))
+		h.deliver = func(m map[string]int) { obs.Run(&mapConfig{m}) }
+	}
+	h.guard("New", func() { h.s = zip.GetInstance(opts...) })
+	h.created("queue", false, settings{})
+	if h.err != nil {
+		return h.err
+	}
+	// the built-in 5 s are in force: a short waiting time is configured before the worker waits for the first time
+	base := len(newRec(1, 1, 0).enc)
+	m := pickConfig(rng, base)
+	m["max_wait_time"] = 3 + rng.Intn(10)
+	h.applyConfig(m)
+	cur := settings{qCap: 1000}
+	if v, ok := m["logsink_queue_size"]; ok {
+		cur.qCap = int64(v)
+	}
+	nrec := gatedOps(h, rng, cur, 12+rng.Intn(c.Pick(30, 60)))
+	c.Count(fmt.Sprintf("api/%d/%s/%d", cas%5, h.via, nrec), true)
+	return h.err
+}
+
+// apiCase: history (api, cas) in a child process (the same binary, -gen api -case cas), its events copied into t
+func apiCase(c *core.Ctx, t *core.Trace, cas int) error {
+	if c.OnlyGen == "api" && c.OnlyCase >= 0 {
+		return apiHistory(c, t, cas)
+	}
+	exe, err := os.Executable()
+	if err != nil {
+		return err
+	}
+	sub := filepath.Join(c.OutDir, fmt.Sprintf("api-%d", cas))
+	if err := os.MkdirAll(sub, 0o755); err != nil {
+		return err
+	}
+	args := []string{"-tier", c.Tier, "-seed", strconv.FormatInt(c.Seed, 10), "-out", sub, "-gen", "api", "-case", strconv.Itoa(cas)}
+	if len(c.Args) > 0 {
+		kv := []string{}
+		for k, v := range c.Args {
+			kv = append(kv, k+"="+v)
+		}
+		sort.Strings(kv)
+		args = append(args, "-args", strings.Join(kv, ","))
+	}
+	ctx, cancel := context.WithTimeout(context.Background(), 2*waitMax)
+	defer cancel()
+	cmd := exec.CommandContext(ctx, exe, append(args, "c16")...)
+	cmd.Dir = sub
+	if out, err := cmd.CombinedOutput(); err != nil {
+		return fmt.Errorf("child process: %v: %s", err, out)
+	}
+	f, err := os.Open(filepath.Join(sub, "c16_gate.ndjson"))
+	if err != nil {
+		return err
+	}
+	defer f.Close()
+	sc := bufio.NewScanner(f)
+	sc.Buffer(make([]byte, 1<<20), 1<<28)
+	n := 0
+	for sc.Scan() {
+		d := json.NewDecoder(bytes.NewReader(sc.Bytes()))
+		d.UseNumber()
+		ev := core.Ev{}
+		if err := d.Decode(&ev); err != nil {
+			return fmt.Errorf("child trace: %v", err)
+		}
+		t.Emit(ev)
+		n++
+	}
+	if err := sc.Err(); err != nil {
+		return err
+	}
+	if n == 0 {
+		return errors.New("child process wrote no events")
+	}
+	os.RemoveAll(sub)
+	c.Count(fmt.Sprintf("api/%d/%d", cas%5, (cas/5)%3), true)
+	return nil
 }
 
 func mkBatch(h *hist, rng *rand.Rand, now int64) []*rec {
 	n := rng.Intn(5)
 	rs := []*rec{}
 	for j := 0; j < n; j++ {
-		rs = append(rs, h.mk(now, pickClen(rng)))
+		rs = append(rs, h.mkAny(rng, now, pickClen(rng)))
 	}
 	return rs
 }
@@ -777,7 +1181,7 @@ func directHistory(c *core.Ctx, t *core.Trace, cas int) error {
 		switch k := rng.Intn(10); {
 		case k < 6:
 			now += int64(rng.Intn(7))
-			h.appendCall(h.mk(now, pickClen(rng)))
+			h.appendCall(h.mkAny(rng, now, pickClen(rng)))
 			nrec++
 			h.peekLast(2)
 		case k < 8:
@@ -863,7 +1267,7 @@ func freeHistory(c *core.Ctx, t *core.Trace, cas int) error {
 	now := int64(1)
 	for i := 0; i < nrec; i++ {
 		now += int64(rng.Intn(6))
-		rs = append(rs, h.mk(now, pickClen(rng)))
+		rs = append(rs, h.mkAny(rng, now, pickClen(rng)))
 	}
 	var batches [][]*rec
 	for i := 0; i < 1+rng.Intn(3); i++ {
@@ -909,7 +1313,11 @@ func Run(c *core.Ctx) error {
 		"(buffer -1..1 MiB, wait -5..15, zip threshold -1..1 MiB, queue -1..6, or none = built-in), records of 0..260 content bytes with " +
 		"virtual times, a client that consumes / retains / mixes and sometimes reports an error; queue mode stepped hook by hook " +
 		"(adds while held and while the worker waits, SendDirect, configuration updates, stop anywhere), direct mode (Append, SendDirect), " +
-		"free-running concurrent runs; non-trivial = at least 2 records; distinct by (settings, number of records)"
+		"free-running concurrent runs; about one record in eight cannot be encoded by the pack layer (no tag map, nil pointer); " +
+		"reconf: waiting time switched between 3..12 ms and 1.5..5 s (named or absent) while the worker runs, each switch followed by a batch only the idle " +
+		"time-out flushes, timed by the reference clock; api: public GetInstance in a process of its own, context none / alone / with cancel function / derived, " +
+		"stopped by own / given cancel function or the context's owner, configuration by ApplyConfig or ConfigObserver; " +
+		"non-trivial = at least 2 records (reconf: at least one idle flush); distinct by (settings, number of records)"
 	tg := c.Trace("c16_gate", "Trace_ZipSender")
 	tf := c.Trace("c16_free", "Trace_ZipSender")
 	run := func(gen string, n int, f func(cas int) error) error {
@@ -938,6 +1346,12 @@ func Run(c *core.Ctx) error {
 		return err
 	}
 	if err := run("defaults", c.Pick(2, 3), func(cas int) error { return defaultsHistory(c, tg, cas) }); err != nil {
+		return err
+	}
+	if err := run("reconf", c.Pick(12, 90), func(cas int) error { return reconfHistory(c, tg, cas) }); err != nil {
+		return err
+	}
+	if err := run("api", c.Pick(15, 60), func(cas int) error { return apiCase(c, tg, cas) }); err != nil {
 		return err
 	}
 	if err := run("free", c.Pick(16, 150), func(cas int) error { return freeHistory(c, tf, cas) }); err != nil {
